@@ -281,7 +281,9 @@ func (b *ByteSlice) GetSlice(slice Slice) (Object, *Error) {
 	if err != nil {
 		return nil, NewError(err)
 	}
-	return NewByteSlice(b.value[start:stop]), nil
+	out := make([]byte, stop-start)
+	copy(out, b.value[start:stop])
+	return NewByteSlice(out), nil
 }
 
 func (b *ByteSlice) SetItem(key, value Object) *Error {
